@@ -18,6 +18,18 @@ CHECKS = {
  'C14': dict(level='proof', technique='CBMC 2-safety (self-composition): two objects in independent nondeterministic memory backgrounds, same member values => same bytes; padding zero',
    text="For every class, two objects constructed in two arbitrary memory backgrounds and given the same member values (and, separately, only constructed) are written by the extracted write() to two streams: equal length, equal bytes at an arbitrary index, bytes beyond objectSize zero. AbstractFile::skipp is the real extracted body. Container-cut determinism is carried by C15/C04.",
    note=TB + "; zlib determinism assumed; schedule independence is C07 (not applicable)", ref='6/C14'),
+ 'C09': dict(level='proof', technique='CBMC loop contract (invariant + decreases) on the signature resynchronisation loop of ObjectHeaderBase::read over an arbitrary byte buffer; ghost position instead of quantifiers',
+   text="ObjectHeaderBase::read is proved on its real body with an inductive loop invariant: for an arbitrary buffer of arbitrary length and start position, a successful return means the accepted signature is the FIRST 'LOBJ' at or after the start (no earlier signature skipped by the -3/-2/-1 seek-back), the header fields are the bytes behind it, tellg is 16 past it, and the loop terminates. Unbounded in filler length and content. The unknown-type skip and relative seek are carried by the File-level obligations and C15.",
+   note=TB + "; buffers up to the 64 KiB per-object bound of the pointer encoding", ref='6/C09'),
+ 'C10': dict(level='proof', technique='CBMC on every extracted <T>::read against the hostile-stream contract (arbitrary bytes, arbitrary declared end): memory safety, admissible outcomes, position bounds',
+   text="Reduced scope (stated): for every class the decoder is checked against a stream that delivers ARBITRARY bytes with an ARBITRARY declared end: every built-in safety check holds, every stream read has a destination writable for exactly the requested size, the only outcomes are normal return / library exception at eof / std exception from a failed allocation of the declared size, and the position stays between the object start and the declared end. Unbounded in declared sizes. Containment, end-of-stream on every exit and loop progress of the worker functions are File-level obligations.",
+   note=TB + "; UB inside zlib/libstdc++/fstream, real threads and the sanitizer observation points are not covered; ObjectHeaderBase::read enters through the contract proved in C09", ref='6/C10'),
+ 'C15': dict(level='proof', technique='CBMC: every UncompressedFile operation against a contract over the abstract byte view + representation invariant; std::copy stubbed by an addressing check; inductive over histories',
+   text="Each operation (read, write bytes, append container, seekg, nextLogContainer, dropOldData, setters, accessors, wait predicates, lookup) is checked from an ARBITRARY pre-state within the representation invariant with every position/size/length symbolic: counts, positions, flags per the iostream law; every chunk copied addresses the container that holds its absolute position and the matching place in the caller's buffer, chunks are in order without gap or overlap, every delivered/stored position is moved exactly once; dropOldData never discards an unread byte; frame. Histories of any length follow by induction. Bounded in the number of containers held at once (2 quick / 3 thorough).",
+   note=TB + "; byte move of std::copy assumed, its addressing checked; list/shared_ptr modelled by an array of pointers", ref='6/C15'),
+ 'C16': dict(level='proof', technique='CBMC: every ObjectQueue function against a contract over the abstract queue view (ghost sequence numbers, element at one arbitrary position); loop contract on the destructor',
+   text="read/write/abort/setFileSize/setBufferSize/accessors/wait predicates are loop free and are checked from an arbitrary pre-state: FIFO order and exactly-once at an arbitrary sequence number J, null only when empty and (abort or declared size consumed), producer held back exactly at capacity, abort releases both predicates and notifies both sides, frames. The destructor's loop carries an invariant (one delete per pop) and a variant. Complete for queues and histories of any length; the interleaving half of the quantifier is not explored.",
+   note=TB + "; std::queue modelled by sequence numbers; wait returns only when its predicate holds", ref='6/C16'),
 }
 NA = {
 }
